@@ -182,6 +182,8 @@ pub struct ScriptModel {
     _tok: Token,
     name: String,
     outs: Vec<Output<Payload>>,
+    /// one port connected to every target of the model (op "bcast")
+    ball: Output<Payload>,
     selfq: Requestor<Payload, u32>,
     shared: Arc<Shared>,
 }
@@ -237,6 +239,11 @@ impl ScriptModel {
                     sh.log.lock().unwrap().push(json!({"ev": "op", "m": self.name, "out": "ok"}));
                     let payload = Payload { prog: op.prog, from: self.name.clone(), tok: Token::new(K_PAYLOAD, &sh.counters) };
                     self.outs[op.port - 1].send(payload).await;
+                }
+                "bcast" => {
+                    sh.log.lock().unwrap().push(json!({"ev": "op", "m": self.name, "out": "ok"}));
+                    let payload = Payload { prog: op.prog, from: self.name.clone(), tok: Token::new(K_PAYLOAD, &sh.counters) };
+                    self.ball.send(payload).await;
                 }
                 "panic" => {
                     sh.log.lock().unwrap().push(json!({"ev": "op", "m": self.name, "out": "ok"}));
@@ -441,14 +448,16 @@ fn build(bench: &Bench, run: &Run, out: &mut dyn Write) -> World {
     let mut models = Vec::new();
     for m in bench.models.iter() {
         let mut outs = Vec::new();
+        let mut ball = Output::new();
         for tgt in bench.conn.get(m).cloned().unwrap_or_default() {
             let mut o = Output::new();
             o.connect(ScriptModel::handle, addrs.get(&tgt).unwrap());
             outs.push(o);
+            ball.connect(ScriptModel::handle, addrs.get(&tgt).unwrap());
         }
         let mut selfq = Requestor::new();
         selfq.connect(ScriptModel::reply, addrs.get(m).unwrap());
-        models.push(ScriptModel { _tok: Token::new(K_MODEL, &sh.counters), name: m.clone(), outs, selfq, shared: sh.clone() });
+        models.push(ScriptModel { _tok: Token::new(K_MODEL, &sh.counters), name: m.clone(), outs, ball, selfq, shared: sh.clone() });
     }
     for (m, model) in bench.models.iter().zip(models.into_iter()) {
         let mb = mailboxes.remove(0);
